@@ -200,8 +200,10 @@ def dist_checks(ctx, drv):
     ns = list(range(1, 33)) + sorted({ctx.rng.randint(33, 520) for _ in range(40)}) if ctx.quick() \
         else list(range(1, 129)) + sorted({ctx.rng.randint(129, 2000) for _ in range(200)})
     lines, keep = [], []
+    # 'ring': every count up to the bound (a float-step construction breaks at isolated counts: 61, 122, 197, ...)
+    ns_ring = list(range(1, 521 if ctx.quick() else 2001))
     for name, flag in DISTS:
-        for n in ns:
+        for n in (ns_ring if name == 'ring' else ns):
             if name == 'hexapolar' and n > (12 if ctx.quick() else 40) and n % 7 != 0:
                 continue
             if name == 'hexapolar' and n > (64 if ctx.quick() else 230):
